@@ -623,7 +623,20 @@ fn emit_update(out: &mut Out, runner: &mut Runner, c: &UpdCase, compression: Til
 	}
 	let sig = |kind: &str| json!({"kind": kind, "flags": flags});
 	if !valid {
-		out.oracle(!matches!(res, OpResult::Panic(_)) || input.is_some(), "C11 update: panic on undecodable bytes", sig("panic_invalid"), json!({"case": line}));
+		// not a valid tile (truncated / dangling tag ids / repeated key): the claims are "no panic" and
+		// "the stream agrees with the lookup" (an undecodable tile is an error for the lookup and is left out of the stream)
+		out.count("upd_invalid_tile");
+		out.oracle(!matches!(res, OpResult::Panic(_)), "C11 update: get_tile_data panics on bytes that are not a valid tile", sig("panic_invalid"), json!({"case": line}));
+		if let Some(s) = &stream {
+			out.eval(&format!("stream {line}"), false);
+			let ok = match s {
+				OpResult::Panic(_) => false,
+				OpResult::Tile(sb) => matches!(&res, OpResult::Tile(b) if dump_bytes(b, false) == dump_bytes(sb, false)),
+				_ => !matches!(res, OpResult::Tile(_)),
+			};
+			let what = if matches!(s, OpResult::Panic(_)) { "get_tile_stream panics on a tile that is not valid (the lookup returns an error)" } else { "get_tile_stream and get_tile_data disagree on a tile that is not valid" };
+			out.oracle(ok, &format!("C11 update: {what}"), sig("stream_invalid"), json!({"case": line}));
+		}
 		return;
 	}
 	let input = input.unwrap();
@@ -889,9 +902,16 @@ non-trivial: C11p every case; C11d valid tiles; C11u cases where the expected ou
 	// the operation
 	let nu = args.n(4000, 40000);
 	for i in 0..nu {
-		let c = gen_update_case(&mut rng, i % 3 != 0);
+		let mut c = gen_update_case(&mut rng, i % 3 != 0);
 		let comp = if i % 6 == 5 { TileCompression::Gzip } else { TileCompression::Uncompressed };
-		emit_update(&mut out, &mut runner, &c, comp, i % 4 == 0);
+		let mut with_stream = i % 4 == 0;
+		if i % 16 == 7 && c.tile.len() > 1 {
+			// a truncated tile in the source: lookup must fail cleanly, the stream must survive
+			let keep = rng.range(1, c.tile.len() as u64 - 1) as usize;
+			c.tile.truncate(keep);
+			with_stream = true;
+		}
+		emit_update(&mut out, &mut runner, &c, comp, with_stream);
 	}
 	out.finish();
 }
